@@ -126,6 +126,8 @@ class Verifier(Calls):
                     value._pyvc_elem = T[1]
                 if isinstance(value, ast.Dict) and T[0] == 'rec':
                     value._pyvc_rec = T[1]
+                if isinstance(value, ast.Dict) and T[0] == 'map':
+                    value._pyvc_map = True
 
     def assign(self, st, tgt, v, stmt):
         "-> list of states"
@@ -971,6 +973,11 @@ class Verifier(Calls):
                 raise Unsupported('contract does not type parameter %r' % n, fn)
             fr.loc[n] = self.param_value(st, n, parse_type(c.params[n]), c)
         st.frames.append(fr)
+        gl = [z3.Int('G.' + k) for k in sorted(REG.globs)]
+        for g in gl:
+            st.assume(AND(g >= 1, g < st.alloc))
+        if len(gl) > 1:
+            st.assume(z3.Distinct(*gl))
         for g, (T, init) in c.ghost.items():
             fr.loc[g] = self.coerce(st, self.eval_spec_value(st, init, fr), parse_type(T), fn, 'ghost ' + g)
         return st
@@ -1059,6 +1066,10 @@ class Verifier(Calls):
                 continue
             if mexpr.endswith('{*}'):
                 v = self.ev1(self.parse_spec(mexpr[:-3]), probe)
+                if isinstance(v, (VMap, VAny)):
+                    allowed.setdefault(self.MAP_DOM, []).append(v.t)
+                    allowed.setdefault(self.MAP_VAL, []).append(v.t)
+                    continue
                 for k2, T in self.rec_fields(v.name).items():
                     for j in range(len(slots(parse_type(T)))):
                         allowed.setdefault(('$rec:' + v.name, k2, j), []).append(v.t)
